@@ -6,7 +6,9 @@ import (
 	"fmt"
 	"os"
 
+	"verifharness/gl/c10"
 	"verifharness/gl/c14"
+	"verifharness/gl/c17"
 	"verifharness/gl/c20"
 	"verifharness/lib/c12"
 	"verifharness/lib/c13"
@@ -19,10 +21,12 @@ import (
 var cmds = map[string]func([]string) int{
 	"C05": c05.Main,
 	"C09": c09.Main,
+	"C10": c10.Main,
 	"C12": c12.Main,
 	"C13": c13.Main,
 	"C14": c14.Main,
 	"C16": c16.Main,
+	"C17": c17.Main,
 	"C18": c18.Main,
 	"C20": c20.Main,
 }
